@@ -34,6 +34,15 @@ fn alphabet(size: u8) -> Vec<Tx> {
 		// a tree inserted meanwhile that reuses a node of the locked tree
 		vec![(0, Op::InsertTree(rk(2), NodeSpec { data: B::pat(6, 5), children: vec![ChildSpec::Existing(rk(1), vec![0])] }))],
 	];
+	if size == 9 {
+		// one transaction that inserts a tree reusing a node of K1 and dereferences K1; then the new tree is dropped
+		// (possibly before the postponed part of the first transaction has run)
+		return vec![
+			vec![(0, Op::InsertTree(rk(2), NodeSpec { data: B::pat(6, 5), children: vec![ChildSpec::Existing(rk(1), vec![0])] })), (0, Op::DerefTree(rk(1))), (2, Op::Set(hk(1), hv(1)))],
+			vec![(0, Op::DerefTree(rk(2)))],
+			vec![(2, Op::Set(hk(1), hv(2)))],
+		]
+	}
 	if size >= 1 {
 		a.push(vec![(0, Op::DerefTree(rk(2)))]);
 		a.push(vec![(2, Op::Del(hk(1))), (1, Op::Del(hk(1)))]);
@@ -107,9 +116,9 @@ fn scenario(name: &str, size: u8, n: usize, x: usize, three_cols: bool) -> Scena
 
 pub fn scenarios(tier: &str) -> Vec<Scenario> {
 	if tier == "thorough" {
-		vec![scenario("lock/3col-n3", 1, 3, 1, true), scenario("lock/2col-n4-small", 0, 4, 1, false)]
+		vec![scenario("lock/3col-n3", 1, 3, 1, true), scenario("lock/2col-n4-small", 0, 4, 1, false), scenario("lock/2col-n3-insert+deref-in-one-transaction", 9, 3, 1, false)]
 	} else {
-		vec![scenario("lock/2col-n2", 0, 2, 1, false), scenario("lock/3col-n2", 0, 2, 0, true)]
+		vec![scenario("lock/2col-n2", 0, 2, 1, false), scenario("lock/3col-n2", 0, 2, 0, true), scenario("lock/2col-n2-insert+deref-in-one-transaction", 9, 2, 0, false)]
 	}
 }
 
